@@ -511,6 +511,28 @@ def conditions(N, program, body, target, terms=None, start=0, inline=False):
     return out
 
 
+def conditions_dnf(N, program, body, target, terms=None, start=0, inline=False, cap=32):
+    """like conditions(), but a test on a selection with several feasible branches is split: a list of alternatives, each a
+    list of (switch block, label, test term); [] if the target is unreachable"""
+    alts = [[]]
+    for sb, labs, t in flow.conditions(program, body, target, terms, start):
+        tn = N.inline(t) if inline else N.norm(t)
+        ds = dnf_cond(tn, labs)
+        if len(ds) * len(alts) > cap:
+            r = norm_cond(tn, labs)
+            ds = [] if r is None else [r]
+        new = []
+        for a in alts:
+            for d in ds:
+                cand = a + [(sb, l2, t2) for t2, l2 in d]
+                if not contradictory([(t3, l3) for _sb, l3, t3 in cand]):
+                    new.append(cand)
+        alts = new
+        if not alts:
+            return []
+    return alts
+
+
 def canon_cond(t, l):
     """boolean tests as positive atoms: (Not(x), l) ==> (x, flipped l)"""
     while isinstance(t, tuple) and len(t) == 3 and t[0] == "unop" and t[1] == "Not" and (flow.lab_true(l) or flow.lab_false(l)):
@@ -700,3 +722,25 @@ def rebuilds(t, r, residual_ok=False):
                 return False
         seen.add(pt[1])
     return seen == {True, False}
+
+
+def min_of(t):
+    """frozenset{a, b} when t is the smaller of a and b — `a.min(b)`, `cmp::min(a, b)`, `if a < b { a } else { b }` and the
+    other spellings of the comparison; None otherwise"""
+    if isinstance(t, tuple) and len(t) == 4 and t[0] == "call" and (names.is_(t[1], "Ord::min") or names.is_(t[1], "cmp::min")) and len(t[2]) == 2:
+        return frozenset(t[2])
+    if isinstance(t, tuple) and t and t[0] == "gamma" and len(t[2]) == 2 and isinstance(t[1], tuple) and t[1][:1] == ("binop",) and t[1][1] in ("Lt", "Le", "Gt", "Ge"):
+        op, a, b = t[1][1], t[1][2], t[1][3]
+        tv = fv = None
+        for l, v in t[2]:
+            if flow.lab_true(l):
+                tv = v
+            elif flow.lab_false(l):
+                fv = v
+        if tv is None or fv is None:
+            return None
+        # on the true edge of a < b / a <= b the smaller is a; of a > b / a >= b it is b
+        small, big = (a, b) if op in ("Lt", "Le") else (b, a)
+        if tv == small and fv == big:
+            return frozenset((a, b))
+    return None
